@@ -52,6 +52,7 @@ pub struct Part {
 
 #[derive(Default)]
 pub struct Sim {
+    pub getinfo_count: u64,
     pub now: u64,
     pub height: u32,
     pub epoch: u32,
@@ -195,10 +196,8 @@ impl Sim {
             }
             "waitsendpay" => {
                 let hash = p["payment_hash"].as_str().map(cat::hash_name_hex).unwrap_or_default();
-                let part = p["partid"].as_u64().unwrap_or(0);
-                let known = part >= 1 && (part as usize) <= self.parts.len()
-                    && self.parts[part as usize - 1].hash == hash
-                    && Some(self.parts[part as usize - 1].cmd) == p["groupid"].as_u64();
+                let part = self.find_part(&hash, p["groupid"].as_u64(), p["partid"].as_u64().unwrap_or(0));
+                let known = part >= 1;
                 // timeout: seconds after which the node answers code 200 although the part is still pending (-1: none)
                 json!({"kind":"wait","hash":hash,"part": if known { part } else { 0 },
                        "timeout": p["timeout"].as_i64().unwrap_or(-1), "at": self.now})
@@ -270,6 +269,22 @@ impl Sim {
             .any(|c| c.method == "pay" && c.st == CallSt::Running && c.abs["hash"] == hash)
     }
 
+    /// Part ids as lightningd numbers them: per group (pay command), starting at 0.
+    fn local_partid(&self, idx: usize) -> u64 {
+        let g = self.parts[idx].cmd;
+        self.parts[..idx].iter().filter(|p| p.cmd == g).count() as u64
+    }
+
+    /// The part a (groupid, partid) pair of a request names (1-based index), 0 if there is none.
+    fn find_part(&self, hash: &str, group: Option<u64>, partid: u64) -> u64 {
+        for idx in 0..self.parts.len() {
+            if self.parts[idx].hash == hash && Some(self.parts[idx].cmd) == group && self.local_partid(idx) == partid {
+                return idx as u64 + 1;
+            }
+        }
+        0
+    }
+
     fn part_json(&self, idx: usize) -> Value {
         let p = &self.parts[idx];
         let k = cat::hash_index(&p.hash);
@@ -277,12 +292,16 @@ impl Sim {
             "created_index": idx + 1,
             "id": idx + 1,
             "groupid": p.cmd,
-            "partid": idx + 1,
+            "partid": self.local_partid(idx),
             "payment_hash": hex::encode(secp256k1::hashes::Hash::to_byte_array(cat::hash_of(k))),
             "status": p.st,
             "amount_sent_msat": 1,
             "created_at": 1,
         });
+        if self.local_partid(idx) == 0 {
+            // lightningd leaves the field out for part 0
+            v.as_object_mut().unwrap().remove("partid");
+        }
         if p.st == "complete" {
             let mut pre = cat::preimage(k);
             if self.wrong_preimage {
@@ -414,13 +433,22 @@ impl Sim {
                 if fault == "error" {
                     (Err(fault_err), json!({"r":"error"}))
                 } else {
-                    (Ok(json!({
+                    // a node that is still syncing says so next to the height it knows: every second reply carries
+                    // one of the two documented warnings
+                    self.getinfo_count += 1;
+                    let mut info = json!({
                         "id": cat::local_pubkey().to_string(),
                         "alias": "verif", "color": "000000", "num_peers": 0,
                         "num_pending_channels": 0, "num_active_channels": 0, "num_inactive_channels": 0,
                         "version": "v24.05", "blockheight": self.height, "network": "regtest",
                         "fees_collected_msat": 0, "lightning-dir": "/tmp/l", "address": [], "binding": [],
-                    })), json!({"r":"ok","height": self.height}))
+                    });
+                    if self.getinfo_count % 4 == 2 {
+                        info["warning_lightningd_sync"] = json!("Still loading latest blocks from bitcoind.");
+                    } else if self.getinfo_count % 4 == 0 {
+                        info["warning_bitcoind_sync"] = json!("Bitcoind is not up-to-date with network.");
+                    }
+                    (Ok(info), json!({"r":"ok","height": self.height}))
                 }
             }
             _ => (Err(RpcErr { code: Some(-32601), message: String::from("unknown method"), transport: false }), json!({"r":"unknown"})),
